@@ -141,12 +141,15 @@ PwFunction(thr, bs, x) ==
 
 \* ---- generator
 PwInit == stage = "thr" /\ c = [thr |-> << >>, betas |-> << >>, x |-> Zero]
-PwCanExtend(thr) == Len(thr) < PwMaxK /\ (Len(thr) <= 1 \/ ~Last(thr).inf)
+\* (written with IF: TLC explores BOTH sides of a disjunction that occurs inside an action)
+PwLastFinite(thr) == IF Len(thr) = 0 THEN FALSE ELSE ~Last(thr).inf
+PwCanExtend(thr) == Len(thr) < PwMaxK /\ (IF Len(thr) <= 1 THEN TRUE ELSE PwLastFinite(thr))
 PwAddThreshold ==
     /\ stage = "thr" /\ PwCanExtend(c.thr)
     /\ \E e \in {Inf} \cup {Fin(g) : g \in PwGrid} :
-          /\ e.inf => (Len(c.thr) = 0 \/ ~Last(c.thr).inf)       \* only the two ends can be open, not both of a pair
-          /\ (~e.inf /\ Len(c.thr) >= 1 /\ ~Last(c.thr).inf) => QLess(Last(c.thr).v, e.v)
+          \* only the two ends can be open, and not both ends of a single interval
+          /\ IF e.inf THEN (IF Len(c.thr) = 0 THEN TRUE ELSE PwLastFinite(c.thr))
+                       ELSE (IF PwLastFinite(c.thr) THEN QLess(Last(c.thr).v, e.v) ELSE TRUE)
           /\ c' = [c EXCEPT !.thr = Append(@, e)]
     /\ UNCHANGED stage
 PwCloseThresholds ==
